@@ -515,8 +515,12 @@ def run(ctx):
             ar = arith_in(r, rr["region"])
             want = ["value", "copy_from_slice", "from_le_bytes", "from"]
             froms = [cfg.callee(t) for i, t in cfg.calls(r) if i in rr["region"] and last(cfg.callee(t)) == "from"]
-            ok = order == want and not ar and rr["payload"] == "f64" and \
-                froms == ["<agdb::db::db_f64::DbF64 as std::convert::From<f64>>::from"]
+            # `DbF64::from(x)` or the equivalent `x.into()` (blanket Into: f64 -> DbF64)
+            intos = [t for i, t in cfg.calls(r) if i in rr["region"] and last(cfg.callee(t)) == "into" and t["a"] and
+                     cfg.op_place(t["a"][0]) and r.local_ty(cfg.op_place(t["a"][0])[0]) == "f64" and
+                     r.local_ty(t["d"][0]).endswith("DbF64")]
+            conv_ok = froms == ["<agdb::db::db_f64::DbF64 as std::convert::From<f64>>::from"] or (not froms and len(intos) == 1)
+            ok = (order == want or order == want[:-1] + ["into"]) and not ar and rr["payload"] == "f64" and conv_ok
             ctx.ob("R12c", "reader:f64", ok, "value() -> copy_from_slice -> f64::from_le_bytes -> DbF64::from, no arithmetic" if ok else
                    "F64 reader path is %s via %s (arithmetic/casts: %s), expected %s" % (order, froms, ar, want), r.loc(rr["start"]))
         else:
